@@ -40,6 +40,7 @@ def ckd_uf(E, k, c, i):
     cc = env.uf_hash("CKDC", 32, kb, c, ib)
     kk = ifb(ck, "big")
     core.CTX.add(z3.ULT(ck.bv(), z3.BitVecVal(N, 256)), ck.bv() != 0)
+    env._log("ckd", kb, c, ib, ck, cc)
     return kk, cc
 
 
@@ -54,6 +55,7 @@ def _prv_ckd(self, index):
     ck = env.uf_hash("CKDK", 32, kb, self.chain_code, ib)
     cc = env.uf_hash("CKDC", 32, kb, self.chain_code, ib)
     core.CTX.add(z3.ULT(ck.bv(), z3.BitVecVal(N, 256)), ck.bv() != 0)
+    env._log("ckd", kb, self.chain_code, ib, ck, cc)
     child = self.__class__(key=ck, chain_code=cc, index=index, depth=self.depth + 1, testnet=self.testnet, parent=self)
     self.children.append(child)
     return child
@@ -76,6 +78,7 @@ def _pub_ckd(self, index):
     ck = env.uf_hash("CKDK", 32, kb, self.chain_code, ib)
     cc = env.uf_hash("CKDC", 32, kb, self.chain_code, ib)
     core.CTX.add(z3.ULT(ck.bv(), z3.BitVecVal(N, 256)), ck.bv() != 0)
+    env._log("ckd", kb, self.chain_code, ib, ck, cc)
     child = self.__class__(key=env.sec_of(ifb(ck, "big")), chain_code=cc, index=index, depth=self.depth + 1,
                            testnet=self.testnet, parent=self)
     self.children.append(child)
